@@ -137,6 +137,10 @@ pub fn eval(dna: &[u16]) -> Res {
             },
             (Err(e), _) | (_, Err(e)) => (Err(format!("expansion cannot be analysed: {e}")), true),
         },
+        // the full request is valid by construction (C01's generator). Refused, while the same request without (or with
+        // re-configured) other traits is accepted, means that the attributes of the other traits decide whether t gets an impl
+        // at all. (The opposite direction proves nothing: re-configuring may remove a name or a rank that the other trait needs.)
+        (Expansion::Err(m), Expansion::Ok(_)) => (Err(format!("the request is refused with all traits ({m}), but accepted once the other traits are {mode}")), true),
         // a request that is refused either way is not this property's business
         _ => (Ok(()), false),
     };
@@ -147,7 +151,7 @@ pub fn run(ctx: &Ctx) -> i32 {
     let mut rep = Report::new(
         ctx,
         "a request with trait set S+{t}; the comparison request keeps t and its documented partner (Copy/Clone, Eq/PartialEq, Ord/PartialOrd) \
-         and either drops or re-configures/reorders every other trait; oracle: the impl items of t are token-identical in both expansions; \
+         and either drops or re-configures/reorders every other trait; oracle: the impl items of t are token-identical in both expansions, and a (valid) full request is not refused where the comparison request is accepted; \
          non-trivial = at least two traits and another trait has ignore/method/rank on a field that t does not ignore; distinct by request hash",
     );
     if let Some(p) = &ctx.replay {
